@@ -156,7 +156,7 @@ def build(key, variant, i):
         else:
             tl0, m0, origin, start, drift, end = 0, 1, 0, 0, 0, R
         dcan = lambda m: env['d'](m) + (drift if m == n else 0)
-        env.update(tl0=tl0, a0=m0, tl_start=start, origin_time=origin, end_=end,
+        env.update(tl0=tl0, a0=m0, tl_start=start, origin_time=origin, origin0=origin, end_=end,
                    dx=lambda i: dcan(((i - 1) % n) + 1), optval=lambda x: x,
                    dx_periodic_live=True, dx_periodic_vod=True, __unbounded_hi__=max(4, 4 * n + 8))
         return {'env': env, 'call': lambda: rep.generateSegmentTimeline()}
